@@ -269,7 +269,7 @@ PROPS = {
         "lean_modules": ["MocProps.C14"], "theorem_files": ["MocProps/C14.lean"],
         "gen_groups": ["Sqlite", "Cache", "Matcher"], "harness_prop": "sqlitefault", "driver_prop": "sqlite", "stateful": True,
         "monitors": ["answer"],
-        "n_quick": 3000, "n_thorough": 30000, "thorough_seeds": 3,
+        "n_quick": 3000, "n_thorough": 12000, "thorough_seeds": 3,
         "rule": SQLITE_RULE,
         "level_text": "Proved on the table model: inserting a batch again - after a success or as the retry after a failure - leaves every table exactly as one successful insertion does, for every "
                       "database state and batch with injective ids (insertBatch_idempotent, retries_equal_single_success: every statement of the second run finds its event settled, by an invariant "
